@@ -3,10 +3,16 @@
 // real code; `_verif_vptr` stands for the vtable pointer.  The NUDGE_UPDATE marker is replaced by the verbatim text of
 // NudgingShiftSegment::updatePositionsFromSolver (an in-class member) or a fragment of it.
 namespace Avoid {
-class Router;
+@ROUTER_ENUMS@
+class Router {
+    public:
+        double routingParameter(const RoutingParameter parameter) const;
+        bool routingOption(const RoutingOption option) const;
+};
 class ConnRef {
     public:
         Polygon& displayRoute(void);
+        Router *router(void) const;
 };
 class Variable {
     public:
